@@ -10,7 +10,12 @@ LOOP = "loop-straddling templates: for-loop bodies whose last fragment starts an
 FIXT = "every dialect fixture <= 250 B (thorough 1000 B) fixed in its own dialect"
 GLUE = "operator / sign / comment-adjacent input list (fixfam.GLUE, 60 statements)"
 GAPS = "every dialect fixture <= 80 B (thorough 150 B) with ' -- c<newline>' inserted after EVERY token in turn, fixed in its own dialect (8 543 inputs)"
-LPROD = "layout option product (max_line_length {6, 10, 20, 45} x implicit_indents {forbid, allow, require} x G(1) + operator list with short / long identifiers)"
+ROPT = "every assignment of <= 2 enumerated options of every rule x that rule's YAML strings + operator list, that rule alone"
+LT05P = (
+    "LT05 product (every ordered triple of 5 statements with inline / block / multi-line block trailing comments and long identifiers x "
+    "ignore_comment_lines x ignore_comment_clauses x max_line_length {30, 50})"
+)
+LPROD ="layout option product (max_line_length {6, 10, 20, 45} x implicit_indents {forbid, allow, require} x G(1) + operator list with short / long identifiers)"
 
 EXTRA = {
     "C01": SPAN + "; " + NESTED + "; the public Lexer on un-normalised text (every string over Sigma_c^<=3 containing a lone CR x 28 dialects); every alphabet "
@@ -18,7 +23,7 @@ EXTRA = {
     "C02": SPAN + "; " + LOOP + "; a missing tree is accepted only for unbalanced brackets and depth/node limits.",
     "C03": SPAN + "; " + LOOP + ".",
     "C04": "Jinja " + SPAN + " (parse, lint, fix); EVERY max_parse_depth in 1..140 x 3 small files x {parse, lint, fix}; large_file_skip_char_limit in {5, 16} x 4 "
-    "templaters x 3 inputs x {parse, lint, fix, API lint/fix/parse}.",
+    "templaters x 3 inputs x {parse, lint, fix, API lint/fix/parse}; files without any code token (comment-only / blank / whitespace-only) around max_parse_nodes.",
     "C05": "every assignment of <= 2 enumerated options of every rule (36 rules with options) x that rule's YAML strings and the " + GLUE + ", that rule alone, lint + fix.",
     "C06": "part C: statement pairs forced to collide in one parse -- per dialect, fixture statements grouped by first keyword, representative A of each two-keyword "
     "kind x every statement B of the group (55 k files 'A; B;'), B's subtree shape must equal its shape when parsed alone; part D: simple() first-token hints of "
@@ -31,17 +36,17 @@ EXTRA = {
     "shapes) x {jinja, python, 9 placeholder styles} x {default, max_line_length 30}.",
     "C11": SPAN + "; 12 line-break-like characters (VT, FF, FS, GS, RS, NEL, LS, PS, CR, CRLF, NBSP, BOM) inside a string literal, a comment and between tokens; "
     "the reference text is the INPUT with only CRLF/CR -> LF.",
-    "C12": FIXT + "; " + GLUE + "; " + GAPS + "; " + LPROD + " x all.",
-    "C13": FIXT + "; " + GLUE + "; " + GAPS + "; " + LPROD + " x all; Jinja: every span template of <= 3 items inside an identifier / quoted literal x 4 statement "
+    "C12": FIXT + "; " + GLUE + "; " + GAPS + "; " + LPROD + " x all; " + ROPT + ".",
+    "C13": FIXT + "; " + GLUE + "; " + GAPS + "; " + LPROD + " x all; " + ROPT + "; Jinja: every span template of <= 3 items inside an identifier / quoted literal x 4 statement "
     "shapes, all rules.",
-    "C14": FIXT + " under the layout group; " + GLUE + "; " + GAPS + "; " + LPROD + " x layout.",
+    "C14": FIXT + " under the layout group; " + GLUE + "; " + GAPS + "; " + LPROD + " x layout; " + LT05P + " x layout.",
     "C15": "statements with quoted / schema-qualified type names and comments inside a data type.",
     "C16": GLUE + ".",
     "C17": FIXT + "; " + GLUE + "; layout option product: max_line_length {6, 10, 20, 45} x implicit_indents {forbid, allow, require} x (G(1) + operator list, "
-    "each also with long identifiers everywhere and with long identifiers only after FROM) x {layout, all}.",
+    "each also with long identifiers everywhere and with long identifiers only after FROM) x {layout, all}; " + ROPT + "; " + LT05P + " x {LT05, all}.",
     "C19": "nested-configuration scenarios (file in sub/ or sub/deep/ with its own .sqlfluff: rule option, exclude_rules, templater context) and templated files, "
     "stdin given --stdin-filename sub/f.sql; every inline directive also in every accepted spelling ('-- sqlfluff:' / '--sqlfluff:') x placement (first / last "
-    "line) x line ending (LF / CRLF).",
+    "line) x line ending (LF / CRLF); non-ASCII text after pure-ASCII prefixes of 0 / 1.1 / 5 / 70 KiB.",
     "C20": "16 directive kinds incl. lists mixing an expanding reference with a special code (noqa: LT01,PRS / PRS,CP01 / disable=LT01,PRS); block-comment syntax "
     "for all single-directive placements.",
     "C21": "selectors with character-class globs (CP0[12], capitalisation.[k]eywords, LT0[!1]).",
@@ -51,7 +56,8 @@ EXTRA = {
     "C26": "interrupt-at-i: KeyboardInterrupt and SystemExit raised at every operation index (a failed write that is not an OSError).",
     "C28": SPAN + "; " + LOOP + ".",
     "C30": SPAN + " (patch sets of real fixes); insertions come with two different texts (X, Y) so one variant can carry two edits of one zero-length range; "
-    "depth-changing loops (48 templates whose loop body opens / closes a bracket or CASE, fixed under LT02 alone and under all rules).",
-    "C34": "the same limits set by a NESTED .sqlfluff (big.sql in m/, the root config says the opposite).",
+    "depth-changing loops (48 templates whose loop body opens / closes a bracket or CASE, fixed under LT02 alone and under all rules, also with "
+    "render_variant_limit 1 and 2).",
+    "C34": "the same limits set by a NESTED .sqlfluff (big.sql in m/, the root config says the opposite); 3-line CRLF files whose size on disk is L-1, L, L+1 bytes.",
     "C33": SPAN + ".",
 }
